@@ -75,6 +75,11 @@ def LeafC.toStr : LeafC → PyM String
 /-- `SingleMarker(name, constraint_object)` : goes through `str(constraint)` -/
 def mkSingleOfC (name : String) (c : LeafC) : PyM Single := do
   let s ← c.toStr
+  -- `str()` of a generic `Constraint` omits "==": the constructor puts it back, otherwise a value
+  -- such as "inotify" would be split into operator `in` and value `otify` (repo fix)
+  let s := match c with
+    | .gen (.s (.atom a)) => if a.op == .eq then "==" ++ s else s
+    | _ => s
   mkSingle name s false
 
 /-- the parser `SingleMarkerLike.__init__` stores for `validate` -/
